@@ -192,7 +192,9 @@ class SetattrDelegate(CContract):
                 since.append(r)
             quiet = all(r[0] not in ("setattr", "callmethod") for r in since) and \
                 all(r[0] not in ("setattr", "callmethod") for r in entry.trace)
-            out = [("current-name-held-by-one-reference", z3.And(dan != NULL, st.own == z3.Store(own0, dan, own0[dan] + 1))),
+            o1 = z3.Store(own0, dan, own0[dan] + 1)
+            out = [("current-name-and-current-delegate-each-held-by-one-reference",
+                    z3.And(dan != NULL, st.own == z3.Store(o1, dele, o1[dele] + 1))),
                    ("delegate-and-trait-valid", z3.And(dele != NULL, td != NULL)),
                    ("trait-is-a-delegating-trait", ex2.field_array(st, "delegate_name")[td] != NULL),
                    ("no-error-pending", st.exc == 0),
